@@ -317,6 +317,18 @@ func (root *Root) resolveList(
 			rlist = append(rlist, v)
 		}
 		result = rlist
+	case []Type:
+		// The interfaces of a type when introspecting. Not data of the
+		// application so not something for the AnyResolver.
+		rlist := make([]interface{}, 0, len(list))
+		var v interface{}
+		for i, x := range list {
+			v, ea2 = root.resolve(x, vars, field, lt, depth)
+			Errors(ea2).in(i)
+			ea = append(ea, ea2...)
+			rlist = append(rlist, v)
+		}
+		result = rlist
 	case []string:
 		rlist := make([]interface{}, 0, len(list))
 		for _, s := range list {
